@@ -463,6 +463,9 @@ class DisjunctionMax(CompoundQuery):
     document using the maximum score from the subqueries.
     """
 
+    # Like Or, overlapping ranges can only be merged by union
+    intersect_merge = False
+
     def __init__(self, subqueries, boost=1.0, tiebreak=0.0):
         CompoundQuery.__init__(self, subqueries, boost=boost)
         self.tiebreak = tiebreak
